@@ -20,9 +20,12 @@ TraceT == Trace[1].cfg.T
 VARIABLES l,      \* next record
           seq,    \* layer A: element ids
           rid,    \* root identifier observed at the start of the trace
-          typ     \* type info token
+          typ,    \* type info token
+          committed, \* layer A content at the last successful commit
+          known,     \* the committed snapshot is known (a commit succeeded since the trace started and none failed since)
+          lcalls     \* ledger write calls observed so far
 
-tvars == <<l, seq, rid, typ>>
+tvars == <<l, seq, rid, typ, committed, known, lcalls>>
 
 AbsIds(abs) == [i \in 1..Len(abs) |-> abs[i].v]
 Root(r) == r.roots[1]
@@ -34,7 +37,7 @@ TreeOf(n) == IF n.k = "d" THEN Data([i \in 1..Len(n.e) |-> [id |-> n.e[i].v, vsz
              ELSE Meta([i \in 1..Len(n.c) |-> TreeOf(n.c[i])])
 Plain(n) == \A x \in {AFlattenElems(n)[i] : i \in 1..Len(AFlattenElems(n))} : x.c \in {"s", "L"} /\ x.w = 0
 
-Init == l = 1 /\ seq = <<>> /\ rid = 0 /\ typ = ""
+Init == l = 1 /\ seq = <<>> /\ rid = 0 /\ typ = "" /\ committed = <<>> /\ known = FALSE /\ lcalls = 0
 
 ResOK(r, m) == /\ r.res.class = m.class
                /\ (CheckCat => r.res.cat = m.cat)
@@ -64,8 +67,20 @@ Step(r, m) ==     \* m: [s |-> new sequence, r |-> expected result]
 Next ==
   /\ l <= Len(Trace) /\ l' = l + 1
   /\ LET r == Trace[l] IN
+     /\ IF r.ev \in {"Load", "Commit"} THEN lcalls' = r.st.calls ELSE UNCHANGED lcalls
+     /\ IF r.ev \in {"Load", "Commit", "Crash"} THEN TRUE ELSE UNCHANGED <<committed, known>>
      /\ CASE r.ev = "Load" ->
                /\ seq' = AbsIds(Root(r).abs) /\ rid' = Root(r).rid /\ typ' = Root(r).ti
+               /\ known' = r.known /\ committed' = (IF r.known THEN AbsIds(r.cold[1].abs) ELSE <<>>)
+          [] r.ev = "Commit" ->       \* a layer-A stuttering step; success makes the current content the durable one
+               /\ UNCHANGED <<seq, rid, typ>>
+               /\ IF r.res.class = "ok" THEN committed' = seq /\ known' = TRUE
+                  ELSE committed' = committed /\ known' = FALSE
+          [] r.ev = "DropCache" -> UNCHANGED <<seq, rid, typ>>
+          [] r.ev = "Crash" ->        \* abandon the storage: the content is that of the last successful commit
+               /\ UNCHANGED <<rid, typ, committed, known>>
+               /\ (StrictA /\ known => r.res.class = "ok")
+               /\ seq' = (IF StrictA /\ known THEN committed ELSE AbsIds(Root(r).abs))
           [] r.ev \in {"AInsert", "AAppend"} ->
                /\ Step(r, AIns(seq, IF r.ev = "AAppend" THEN Len(seq) ELSE r.i, r.e.id)) /\ UNCHANGED <<rid, typ>>
           [] r.ev = "ASet" ->
@@ -101,8 +116,24 @@ WellFormed == l > 1 => ArrayWellFormed(Forest(Cur))
 SizesAgree == l > 1 => ArraySizesAgree(Forest(Cur))
 \* C09: the slabs in storage are exactly those reachable from the root
 NoLeak == l > 1 => Cur.st.stored = Cur.st.reach
-\* C03 (between commits no register is written)
-NoLedgerWrite == l > 1 => Cur.st.calls = 0
+\* C03: between commits no register is written or deleted; zero-address slabs are never written;
+\* after a successful commit a brand-new storage reconstructs the content from the registers alone
+NoLedgerWrite == l > 1 => Cur.st.calls = lcalls
+TempNeverWritten == l > 1 => \A i \in 1..Len(Cur.calls) : Cur.calls[i].owner # 0
+Durable == (l > 1 /\ Cur.ev = "Commit" /\ Cur.res.class = "ok") =>
+  /\ Len(Cur.cold) = 1 /\ Cur.cold[1].kind = "A"
+  /\ AbsIds(Cur.cold[1].abs) = seq /\ AFlatten(Cur.cold[1].F[1]) = seq
+  /\ Cur.cold[1].n = Len(seq) /\ Cur.cold[1].ti = typ /\ Cur.cold[1].rid = rid
+CrashRestores == (l > 1 /\ Cur.ev = "Crash" /\ known) => (Cur.res.class = "ok" /\ AbsIds(Root(Cur).abs) = committed)
+\* C07 / C08: the slabs decoded from the registers equal the in-memory slabs that produced them
+ColdEqualsWarm == (l > 1 /\ Cur.ev = "Commit" /\ Cur.res.class = "ok") => Cur.cold[1].F = Root(Cur).F
+ColdWellFormed == (l > 1 /\ Cur.ev = "Commit" /\ Cur.res.class = "ok") => ArrayWellFormed(Cur.cold[1].F[1])
+\* C04: the deterministic commit issues its calls in ascending (owner, index)
+CallLess(a, b) == a.owner < b.owner \/ (a.owner = b.owner /\ a.index < b.index)
+DetOrder == (l > 1 /\ Cur.ev = "Commit" /\ Cur.mode = "det") =>
+  \A i \in 1..(Len(Cur.calls) - 1) : CallLess(Cur.calls[i], Cur.calls[i + 1])
+\* C14 (container level): a failed commit reports an external error
+FailedCommitIsExternal == (l > 1 /\ Cur.ev = "Commit" /\ Cur.res.class # "ok") => Cur.res.cat = "external"
 
 TraceAccepted ==
   LET d == TLCGet("stats").diameter IN
